@@ -17,7 +17,7 @@ def register(PROPS):
         'claim': 'For every limit in the bound, written as DTEND, as DURATION in every legal RFC 5545 spelling (with and without a '
                  'leading +) on a single and on a recurring event, the number of seconds echsx arms for the run equals the limit; for '
                  'execution requests with DUE, echsx arms due - now for three positions of the clock and refuses a DUE in the past '
-                 'with the documented journal entry without starting the job (DUE equal to now: refused or killed at once, never started without a timer).  Limits given as local times of two zones (DTSTART and DTEND with TZID, 3-4 events per file, every pattern of Europe/Berlin and America/New_York, five limits) must come out of echsq with the same span for every event; five limits whose DTSTART and DTEND are local times on the two sides of a DST switch of their zone (Berlin and New York, spring and autumn 2031, plus a control) must come out as the real time between them.  The limit survives the chunking of each of the four readers of the chain: with the text a reader gets laid out so that the line feed of the limit line (DURATION, DTEND, DUE) falls on every offset in a window around the chunk boundary of that reader (echsq 32768 bytes per read of the user file, echsd 4096 per recv of the socket, echsd 65536 per read of a queue file it reloads, echsx 4096 per read of its stdin; LF and, where the text is the user\'s, CRLF line ends), the daemon holds every event of the text and echsx arms exactly the stated limit for the event on the boundary.  Real runs: jobs outliving a 1 s / 2 s limit die '
+                 'with the documented journal entry without starting the job (DUE equal to now: refused or killed at once, never started without a timer).  Limits given as local times of two zones (DTSTART and DTEND with TZID, 3-4 events per file, every pattern of Europe/Berlin and America/New_York, five limits) must come out of echsq with the same span for every event; five limits whose DTSTART and DTEND are local times on the two sides of a DST switch of their zone (Berlin and New York, spring and autumn 2031, plus a control) must come out as the real time between them.  A DTEND limit is the distance of two calendar dates: with DTSTART..DTEND (UTC) laid across every month boundary, the turn of the year and 28/29 Feb of the leap years 2028 and 2032 and the common year 2027 (spans 2 s, 2 h, 26 h, 32 d; boundary in the middle of the span, one second after DTSTART, one second before DTEND), echsx arms exactly the number of seconds between the two dates as counted by the driver\'s own days-from-civil arithmetic.  The limit survives the chunking of each of the four readers of the chain: with the text a reader gets laid out so that the line feed of the limit line (DURATION, DTEND, DUE) falls on every offset in a window around the chunk boundary of that reader (echsq 32768 bytes per read of the user file, echsd 4096 per recv of the socket, echsd 65536 per read of a queue file it reloads, echsx 4096 per read of its stdin; LF and, where the text is the user\'s, CRLF line ends), the daemon holds every event of the text and echsx arms exactly the stated limit for the event on the boundary.  Real runs: jobs outliving a 1 s / 2 s limit die '
                  'within [limit, limit + 4 s] with the signal in the journal, a job finishing earlier is unaffected; this holds for every request of a '
                  'stream of two or three requests handled by one echsx process (what one request leaves behind - handler, pending alarm, signal mask, clock reading - meets the next): '
                  'a job outliving its 1 s limit (or its DUE) is killed also when the request before it was refused (DUE an hour past, unknown user) and its shell is one that keeps the signal mask it inherits (bash), '
@@ -33,7 +33,7 @@ def register(PROPS):
                 'is driven by calling the callbacks in the order libev does (reschedule_cb, then task_cb) instead of waiting for 2031; '
                 'kill latency is observed on nine runs, not enumerated.',
         'rule': 'a case is one (limit, spelling, event shape) triple [chain] or one (clock position, DUE offset) pair [due] or one real run '
-                '[real-time] or one (reader, limit, kind, line end, offset of the limit line relative to the chunk boundary) tuple [align]; all distinct by construction; non-trivial = the chain reached echsx and echsx was run on the request '
+                '[real-time] or one (year, boundary, span, placement) tuple [cal] or one (reader, limit, kind, line end, offset of the limit line relative to the chunk boundary) tuple [align]; all distinct by construction; non-trivial = the chain reached echsx and echsx was run on the request '
                 '(every case that is not reported as chain-died / echsd-refused)',
         'bound': {
             'quick': 'limits 1..180 s every second + 40 values from 5 min to 4 weeks (incl. 86399/86400/86401 s, 2^31 ms +- 1 s) x '
@@ -41,9 +41,9 @@ def register(PROPS):
                      '{single event, FREQ=DAILY;COUNT=3 (first two runs)}: 3540 chain cases; DUE = now + each of the 220 limits and DUE = now - '
                      '{1 s .. 1 year} for now in {2030-06-15T12:00:00Z, 2031-01-15T08:30:00Z, 2032-02-28T23:59:30Z}: 681 cases; 10 real-time runs (two single requests, two streams; refused (overdue DUE / unknown user) then killed under bash x {DURATION, DUE}; DUE early + DUE killed + DUE overdue at its turn; DUE early + DUE overdue + DURATION killed under bash; single request with SIGALRM+SIGXCPU blocked at start); 6 placements of 1-2 real executors (one at least killed at its limit) on one journal; chunk alignment: limits {7 s, 3661 s} x line feed of the limit line at boundary -3..+3 for 5 readers/texts '
                      '(user file -> echsq 32768: DURATION/DTEND x LF/CRLF; echsq text -> echsd in 4096-byte pieces: DURATION/DTEND; queue file written by chkpnt1 -> _inject_file 65536; stream of echsd-written requests -> echsx 4096: DURATION/DTEND; '
-                     'single request with recipients before the limit -> echsx 4096: DUE/DURATION x LF/CRLF): 182 cases',
+                     'single request with recipients before the limit -> echsx 4096: DUE/DURATION x LF/CRLF): 182 cases; calendar boundaries: years {2028, 2027, 2032} x {28/29 Feb (leap years), end of each of the 12 months} x {2 s centred; 2 h, 26 h, 32 d x {centred, DTSTART = boundary - 1 s, DTEND = boundary + 1 s}} as DTSTART/DTEND of a single event: 380 cases',
             'thorough': 'as quick with limits 1..1800 s every second (26k chain cases, 5.5k DUE cases) + 9 real-time runs '
-                        '(sleep 8 under 1 s and 2 s given as DURATION and DTEND; sleep 0 under 2 s; streams killed+killed, killed+unharmed+killed, unharmed+killed+killed) + the 6 streams with refused / DUE requests of the quick tier; the 6 shared-journal placements; chunk alignment as quick with the window -16..+16 (858 cases)',
+                        '(sleep 8 under 1 s and 2 s given as DURATION and DTEND; sleep 0 under 2 s; streams killed+killed, killed+unharmed+killed, unharmed+killed+killed) + the 6 streams with refused / DUE requests of the quick tier; the 6 shared-journal placements; chunk alignment as quick with the window -16..+16 (858 cases); calendar boundaries as quick',
         },
         'targets': [os.path.join(_X, x) for x in ('echsx_shim.so', 'c14_chain')],
         'drivers': [
@@ -51,12 +51,14 @@ def register(PROPS):
             D('build/plain/exec/c14_chain', ['mode=due', 'maxsec=180'], ['mode=due', 'maxsec=1800'], label='due'),
             D('build/plain/exec/c14_chain', ['mode=zones'], label='zones', shards=4),
             D('build/plain/exec/c14_chain', ['mode=align'], ['mode=align', 'win=16'], label='align'),
+            D('build/plain/exec/c14_chain', ['mode=cal'], label='cal'),
             D('harness/exec/c14_rt.py', ['set=quick'], [], label='real-time', interp=_PY, shards=1),
             D('harness/exec/c12_journal.py', ['set=killed'], label='shared-journal', interp=_PY, shards=6),
         ],
         'assumptions': [
             'every journal entry of a session (one echsx process fed several requests) is BEGIN:VTODO followed by its DTSTAMP line (clause rt/journal-form of the real-time streams)',
             'limits are whole seconds (neither DURATION nor the date-time forms used carry fractions); DTSTART/DTEND in UTC form',
+            'calendar boundaries (mode=cal): years 2027..2032 only, i.e. inside the span 1901..2099 in which every fourth year is a leap year; the century year 2100 is available as years=all and is not part of the claim (there the unchanged tree counts a 29 Feb 2100: __doy() of instant.c tests y % 4 only, __jan00() uses the Gregorian rule)',
             'DURATION spellings are generated from the strict RFC 5545 grammar (after H only M, after M only S); the internal hand-overs are read leniently (any ISO 8601 P[nW][nD][T[nH][nM][nS]])',
             'DUE equal to now: refused and killed-at-once are both accepted; starting the job without any timer is a violation',
             'the daemon-side callbacks are invoked directly in libev\'s order; the submitting user is the invoking user (uid 0 here), whose passwd entry supplies the default shell/home',
